@@ -115,6 +115,27 @@ Theorem mtag_meets_oracle_full mt a m i : 0 <= i ->
 Proof. exact (mtag_meets_oracle_full_c mt a m i). Qed.
 Print Assumptions mtag_meets_oracle_full.
 
+(** the list-level oracles: taggedData for an index list (empty list = all positions) answers what [spec_mtag_views]
+    answers; both are silent outside the domain of the multi-tag / array pair - also for an empty list *)
+Theorem mtag_views_meet_oracle mt a m idxs : mtag_not_pinned mt a m -> (forall i, In i idxs -> 0 <= i) ->
+  match spec_mtag_views (incl_of m) mt a idxs with
+  | Region vs => taggedData_mtag repaired_except_pinned mt idxs a m = Ok (map strip vs)
+  | Refuse => taggedData_mtag repaired_except_pinned mt idxs a m = Err E_OutOfBounds
+  | Unconstrained => True
+  end.
+Proof. exact (mtag_views_meet_oracle_c mt a m idxs). Qed.
+Print Assumptions mtag_views_meet_oracle.
+
+(** getOffsetAndCount on an empty index list: "no results" inside the domain, not judged outside it *)
+Theorem mtag_offcnts_empty_oracle mt a m :
+  match spec_mtag_offcnts (incl_of m) mt a [] with
+  | Region vs => vs = [] /\ getOffsetAndCount_mtag repaired_except_pinned mt a [] m = Ok []
+  | Refuse => False
+  | Unconstrained => mtag_array_dom mt a = false
+  end.
+Proof. exact (RetrievalProofs.mtag_offcnts_empty_oracle mt a m). Qed.
+Print Assumptions mtag_offcnts_empty_oracle.
+
 (** non-vacuity: three positions with extents on a sampled x range array, retrieved as a list *)
 Example mtag_list_nonvacuous :
   mtag_ok ex_mtag ex_array /\ mtag_not_pinned ex_mtag ex_array RangeMatch_Exclusive /\
